@@ -1253,4 +1253,35 @@ theorem string_firstPres (rep : Nat → Bool) (ha : AsciiRep rep) : FirstPres re
         (seqDet_of_tight (strBody_tight q hq)))
   exact firstPres_alt (h 34 (Or.inl rfl)) (h 39 (Or.inr rfl))
 
+
+/-! ## the text-level guard implies the scanner-level guards of `Model/EncEscape` -/
+
+theorem step_bs_of (m : Bool) (s : EncEscape.St) (c : Nat) (h : (EncEscape.step m s c).1 = .bs) : c = 92 := by
+  cases s <;> simp only [EncEscape.step, EncEscape.stepNorm, EncEscape.endHex] at h <;>
+    (repeat' split at h) <;> simp_all
+
+theorem guard_okFrom (rep : Nat → Bool) (m : Bool) : ∀ (t : Cps) (s : EncEscape.St) (pb : Bool),
+    guardFrom rep pb t = true → (s = .bs → pb = true) → EncEscape.okFrom rep m s t = true
+  | [], _, _, _, _ => rfl
+  | c :: t, s, pb, hg, hs => by
+    simp only [guardFrom, Bool.and_eq_true] at hg
+    simp only [EncEscape.okFrom, Bool.and_eq_true]
+    refine ⟨?_, guard_okFrom rep m t _ (c == 92) hg.2 (fun h => by simp [step_bs_of m s c h])⟩
+    by_cases hsb : s = .bs
+    · have := hs hsb
+      subst this
+      have h1 : rep c = true := by simpa using hg.1
+      simp [h1]
+    · simp [hsb]
+
+theorem guard_ok (rep : Nat → Bool) (t : Cps) (h : guard rep t = true) :
+    EncEscape.ok rep t = true ∧ EncEscape.okStr rep t = true :=
+  ⟨guard_okFrom rep false t .norm false h (by intro e; cases e),
+   guard_okFrom rep true t .norm false h (by intro e; cases e)⟩
+
+/-- a whole text matched: the whole escaped text is matched -/
+theorem firstPres_whole {rep : Nat → Bool} {r : Re} (h : FirstPres rep r) (t : Cps) (ht : Good rep t)
+    (hm : r.first t = some t.length) : r.first (escape rep t) = some (escape rep t).length := by
+  rw [h t ht, hm]; simp [elen_length]
+
 end CssVerif.EncTok
